@@ -81,8 +81,9 @@ class World:
         self.trusted_used = set()
         self.havoc_callables = {}
         self.model_prefs_fns = []
-        from . import builtins_lib
+        from . import builtins_lib, maps
         builtins_lib.install(self)
+        maps.install(self)
 
     # ---- sources ---------------------------------------------------------------------
     def load_module(self, modname):
